@@ -17,7 +17,7 @@ func init() { core.Register(c03{}) }
 func (c03) ID() string    { return "C03" }
 func (c03) Level() string { return "exploration" }
 func (c03) Rule() string {
-	return "seeded cyclic graphs over interface-typed slots (cycles 2..8, chords, by-type interface slices, components that request themselves by name or by type as in unittest/component/post/t.go) with a harness SmartInstantiationAware post-processor that substitutes 1..3 chosen components by wrapper objects at the timings {early reference only, before-init, after-init only, early+after with the same wrapper object, early+after with different wrappers, early+before}; each under 3 orders (registration x enumeration x candidate order), names on both sides of the App so every cycle is entered at different points. Oracle after a *successful* Run: for every component name N, every injected value (field or slice element, any holder) that stems from N is pointer-identical to App.GetComponentByName(N); an error from Run is always acceptable, a panic or divergence is not; each early-reference callback ran at most once per creation. non-trivial = a wrapped component lies on a cycle or requests itself and its early reference was actually requested; distinct = canonical scenario + plan signature; zero-size wrappers and zero-size wrapped components take part (address equality does not identify an object); components that reach into the graph through optional points only; failing lazy leaves looked up from some Init (error swallowed); substitution from PostProcessBeforeInstantiation; every fifth case: a cycle (np-target <-> np-req) entered through the injection points of a post-processor component under a priority-ordered substituter, the processor's own fields counting as holders; every seventh case: an all-lazy graph created by lookups after the start under the same substitutions; concretePartner family (the cycle partner holds the wrapped entry through a field of its concrete type)"
+	return "seeded cyclic graphs over interface-typed slots (cycles 2..8, chords, by-type interface slices, components that request themselves by name or by type as in unittest/component/post/t.go) with a harness SmartInstantiationAware post-processor that substitutes 1..3 chosen components by wrapper objects at the timings {early reference only, before-init, after-init only, early+after with the same wrapper object, early+after with different wrappers, early+before}; each under 3 orders (registration x enumeration x candidate order), names on both sides of the App so every cycle is entered at different points. Oracle after a *successful* Run: for every component name N, every injected value (field or slice element, any holder) that stems from N is pointer-identical to App.GetComponentByName(N); an error from Run is always acceptable, a panic or divergence is not; each early-reference callback ran at most once per creation. non-trivial = a wrapped component lies on a cycle or requests itself and its early reference was actually requested; distinct = canonical scenario + plan signature; zero-size wrappers and zero-size wrapped components take part (address equality does not identify an object); components that reach into the graph through optional points only; failing lazy leaves looked up from some Init (error swallowed); substitution from PostProcessBeforeInstantiation; every fifth case: a cycle (np-target <-> np-req) entered through the injection points of a post-processor component under a priority-ordered substituter, the processor's own fields counting as holders; every seventh case: an all-lazy graph created by lookups after the start under the same substitutions; concretePartner family (the cycle partner holds the wrapped entry through a field of its concrete type); what callback lookups were handed under a consistently wrapping processor is the published version"
 }
 func (c03) Assumptions() []string {
 	return []string{
